@@ -307,16 +307,24 @@ class Scenario(object):
         rng = self.rng
         lim = self.limits["max_incomplete_connections"]
         n = lim + rng.randint(1, 6)
-        self.steps.append("open %d silent connections (max_incomplete_connections=%d)" % (n, lim))
+        kind = rng.choice(["silent", "authenticated-silent", "mixed"])
+        self.steps.append("open %d %s connections that never say Hello (max_incomplete_connections=%d)" % (n, kind, lim))
         self.part.count("attack:incomplete")
+        self.part.count("attack:incomplete:" + kind)
         socks = []
-        for _ in range(n):
+        for i in range(n):
             s = socket.socket(socket.AF_UNIX, socket.SOCK_STREAM)
             s.setblocking(False)
             try:
                 s.connect(self.daemon.sock)
             except (BlockingIOError, OSError):
                 pass
+            if kind == "authenticated-silent" or (kind == "mixed" and i % 2 == 0):
+                # complete the SASL handshake, then stay silent: still an incomplete connection for the bus
+                try:
+                    s.send(b"\0AUTH EXTERNAL 30\r\nBEGIN\r\n")
+                except OSError:
+                    pass
             socks.append(s)
         self.bystander_roundtrip("%d silent unauthenticated connections" % n)
         # bounded progress: after auth_timeout the slots are freed and a well-behaved newcomer gets in
@@ -342,7 +350,7 @@ class Scenario(object):
                                                "connections were open")
         for s in socks:
             s.close()
-        self.part.sig("incomplete", n > lim, ok)
+        self.part.sig("incomplete", kind, n > lim, ok)
 
     def attack_prefix_close(self):
         rng = self.rng
